@@ -599,3 +599,38 @@ mut('c13-delete-elsewhere', 'C13', ['C13.3'], S,
 mut('c13-stop-always-clears', 'C13', ['C13.3'], S,
     "        if clear:\n            self.event_history.clear()\n", "        if clear or timeout == 0:\n            self.event_history.clear()\n",
     'stop(timeout=0) clears the history')
+
+# ================================================================================================ C14
+mut2('c14-revert-f3', 'C14', ['C14.1'], [
+    (S, "        # Add this EventBus to the event_path if not already there\n",
+        "        _hid = _current_handler_id_context.get()\n        if _hid is not None and inside_handler_context.get():\n            _cur = _current_event_context.get()\n            if _cur is not None and _hid in _cur.event_results and event.event_id != _cur.event_id:\n                _cur.event_results[_hid].event_children.append(event)\n        # Add this EventBus to the event_path if not already there\n"),
+    (S, "                        if event.event_id != current_event.event_id:\n                            current_event.event_results[current_handler_id].event_children.append(event)\n",
+        "                        pass\n"),
+], 'child registered before the capacity check (F3 reverted)')
+mut('c14-raise-after-registration', 'C14', ['C14.1'], S,
+    "                logger.info(\n                    f'🗣️ {self}.dispatch({event.event_type})",
+    "                if len(self.event_history) > 10 * (self.max_history_size or 50):\n                    raise RuntimeError('history overflow')\n                logger.info(\n                    f'🗣️ {self}.dispatch({event.event_type})",
+    'a new reject point after the child registration')
+mut('c14-history-before-put', 'C14', ['C14.2'], S,
+    "                self.event_queue.put_nowait(event)\n                # Only add to history after successfully queuing\n                self.event_history[event.event_id] = event\n",
+    "                self.event_history[event.event_id] = event\n                self.event_queue.put_nowait(event)\n",
+    'history insert before the enqueue')
+mut('c14-swallow-queuefull', 'C14', ['C14.2', 'C14.3'], S,
+    "                raise  # could also block indefinitely until queue has space, but dont drop silently or delete events\n",
+    "                pass\n",
+    'QueueFull swallowed: the event is dropped silently')
+mut('c14-queue-reset-on-stop', 'C14', ['C14.3'], S,
+    "        # Clear references\n        self._runloop_task = None\n", "        # Clear references\n        self._runloop_task = None\n        self.event_queue = None\n",
+    'stop() resets event_queue to None: a later dispatch can take the silent else-arm')
+mut('c14-early-return', 'C14', ['C14.3'], S,
+    "        # Auto-start if needed\n        self._start()\n",
+    "        if event.event_id in self.event_history and event.event_status == 'pending':\n            return event\n        # Auto-start if needed\n        self._start()\n",
+    're-dispatch of a pending event returns without enqueuing')
+mut('c14-no-history', 'C14', ['C14.3'], S,
+    "                # Only add to history after successfully queuing\n                self.event_history[event.event_id] = event\n",
+    "                # Only add to history after successfully queuing\n                if self.max_history_size != 0:\n                    self.event_history[event.event_id] = event\n",
+    'accepted events not always recorded')
+mut('c14-step-drops', 'C14', ['C14.4'], S,
+    "        logger.debug(f'🏃 {self}.step({event}) STARTING')\n",
+    "        logger.debug(f'🏃 {self}.step({event}) STARTING')\n        if event.event_timeout == 0:\n            return event\n",
+    'an accepted event is not processed')
